@@ -165,6 +165,11 @@ impl Stats {
     }
 }
 
+/// Control characters (NUL included) escaped: stdout stays text.
+pub fn printable(s: &str) -> String {
+    s.chars().map(|c| if c.is_control() && c != ' ' { format!("\\x{:02x}", c as u32) } else { c.to_string() }).collect()
+}
+
 pub type Scenario = fn(&Cfg, u64, &mut Stats);
 
 /// "checked" (debug assertions + overflow checks on, the default) or "plain"
@@ -358,7 +363,7 @@ pub fn replay(path: &str) -> i32 {
         Some(vi) => {
             if vi.oracle == oracle && got_digest == digest {
                 println!("REPLAY reproduced exactly: oracle={} digest={}", vi.oracle, got_digest);
-                println!("  observed: {}", vi.observed);
+                println!("  observed: {}", printable(&vi.observed));
                 println!("VIOLATION property={} replay={}", prop, path);
                 1
             } else if vi.oracle == oracle {
@@ -366,7 +371,7 @@ pub fn replay(path: &str) -> i32 {
                     "REPLAY reproduced oracle={} but log digest differs (file {}, now {}): the code under test changed since the file was written",
                     vi.oracle, digest, got_digest
                 );
-                println!("  observed: {}", vi.observed);
+                println!("  observed: {}", printable(&vi.observed));
                 println!("VIOLATION property={} replay={}", prop, path);
                 1
             } else {
@@ -544,7 +549,7 @@ fn conclude_history(cfg: &Cfg, f: &Found) -> i32 {
         full.len(),
         cur.len()
     );
-    println!("  observed: {}", observed);
+    println!("  observed: {}", printable(&observed));
     println!("  replay with: ./check replay {}", path);
     println!("VIOLATION property={} replay={}", cfg.prop, path);
     1
@@ -563,7 +568,7 @@ pub fn replay_history(cfg: &Cfg, scenario: Scenario, v: &Value, path: &str) -> i
             } else {
                 println!("REPLAY reproduced oracle={} but the observation differs from the file: the code under test changed since it was written", oracle);
             }
-            println!("  observed: {}", observed);
+            println!("  observed: {}", printable(&observed));
             println!("VIOLATION property={} replay={}", cfg.prop, path);
             1
         }
@@ -710,7 +715,7 @@ pub fn conclude(cfg: &Cfg, res: &mut BatchResult, meta: &EvidenceMeta, extra: Va
                 "violation at run index {} (seed {}): oracle {}",
                 f.idx, cfg.seed, mv.oracle
             );
-            println!("  observed: {}", mv.observed);
+            println!("  observed: {}", printable(&mv.observed));
             println!("  minimised with {} executions; replay with: ./check replay {}", m.execs, path);
             println!("VIOLATION property={} replay={}", cfg.prop, path);
             1
